@@ -60,3 +60,21 @@ Theorem C03_last_grown : forall fexp cfg0 ops,
                  exists s2, In s2 (sorted_leaves (run fexp cfg0 (pre ++ o :: post1))) /\ same_cluster s2 s))
          (sorted_leaves (run fexp cfg0 ops)).
 Proof. exact run_last_grown. Qed.
+
+(* the same with caller-supplied member labels (multi-round merge rounds, refine with labels) *)
+From BB Require Import Proofs.BirchLabels Proofs.Small2.
+Theorem C03_last_grown_labels : forall fexp cfg0 ops,
+  2 <= c_bf cfg0 -> ops_wf_l fexp (init cfg0) ops -> ops_perms_ok fexp (init cfg0) ops ->
+  Forall (fun s => sn s <= 1 \/
+            exists pre o post st_k c t,
+              ops = pre ++ o :: post /\ st_k = run fexp cfg0 pre /\
+              In (c, t) (op_pairs st_k o) /\ meets c t s /\
+              (exists s1, In s1 (sorted_leaves (fst (step fexp st_k o))) /\ same_cluster s1 s) /\
+              (forall post1 post2, post = post1 ++ post2 ->
+                 exists s2, In s2 (sorted_leaves (run fexp cfg0 (pre ++ o :: post1))) /\ same_cluster s2 s))
+         (sorted_leaves (run fexp cfg0 ops)).
+Proof. exact run_last_grown_l. Qed.
+Theorem C03_step_grown_labels : forall fexp st o,
+  st_inv st -> nf_ok st -> op_wf_l st o -> op_perms_ok fexp st o ->
+  Forall (grown_ok (sorted_leaves st) (op_pairs st o)) (sorted_leaves (fst (step fexp st o))).
+Proof. exact step_grown_l. Qed.
